@@ -3,6 +3,7 @@ package zygo
 import (
 	"fmt"
 	"reflect"
+	"sort"
 	"time"
 )
 
@@ -397,11 +398,16 @@ func TypeListFunction(env *Zlisp, name string, args []Sexp) (Sexp, error) {
 }
 
 func (env *Zlisp) ImportBaseTypes() {
-	for _, e := range GoStructRegistry.Builtin {
+	// bind the type names in sorted order: binding interns the name, and
+	// symbol numbers (visible through symnum and symbol ordering) must not
+	// depend on Go's randomized map iteration order.
+	for _, name := range sortedTypeNames(GoStructRegistry.Builtin) {
+		e := GoStructRegistry.Builtin[name]
 		env.AddGlobal(e.RegisteredName, e)
 	}
 
-	for _, e := range GoStructRegistry.Userdef {
+	for _, name := range sortedTypeNames(GoStructRegistry.Userdef) {
+		e := GoStructRegistry.Userdef[name]
 		// The registry is process-wide, and every record type name ever
 		// used by any interpreter is registered in it, "hash", "field"
 		// and "msgmap" included. Never let such an entry shadow the
@@ -413,6 +419,15 @@ func (env *Zlisp) ImportBaseTypes() {
 		}
 		env.AddGlobal(e.RegisteredName, e)
 	}
+}
+
+func sortedTypeNames(m map[string]*RegisteredType) []string {
+	names := make([]string, 0, len(m))
+	for name := range m {
+		names = append(names, name)
+	}
+	sort.Strings(names)
+	return names
 }
 
 func compareRegisteredTypes(a *RegisteredType, bs Sexp) (int, error) {
